@@ -414,6 +414,7 @@ func (pc *ProviderCache) getReadOnly(ctx context.Context, pid peer.ID) (*readPro
 func (pc *ProviderCache) loadReadOnly() readOnly {
 	verifYield("load")
 	if p := pc.read.Load(); p != nil {
+		verifYield("loaded")
 		return *p
 	}
 	return readOnly{}
